@@ -24,8 +24,8 @@ type jobHist struct {
 	jb2 *job // the job object of the second trigger (Mixed)
 	// failedFull: a run of the fullsync trigger failed midway at some point of this history
 	failedFull bool
-	// srcRecreated: the source dataset was dropped and created again and no run has completed since: the persisted
-	// token still belongs to the former incarnation's change log (a fullsync job does not read by it)
+	// srcRecreated: the source dataset (or, for a fullsync job, the sink) was dropped and created again and no run has
+	// completed since: the persisted token still belongs to the former incarnation (a fullsync job does not read by it)
 	srcRecreated bool
 	chk          *server.VCheck
 	viol         []engine.Violation
@@ -597,6 +597,10 @@ func vReplayJob(task engine.SeqTask) (res engine.SeqResult) {
 					res.HarnessEr = "resink: reset: " + err.Error()
 					return
 				}
+			} else {
+				// a fullsync job does not read by its token; until its next completed run the stored one describes what the
+				// former sink had received
+				jh.srcRecreated = true
 			}
 			if last && ran {
 				keyAtEnd = jh.stateKey(names)
@@ -604,7 +608,7 @@ func vReplayJob(task engine.SeqTask) (res engine.SeqResult) {
 				if r2, p2 := jh.run("", 0); p2 != "" || r2.LastError != "" {
 					jh.fail("run-after-write-fails", fmt.Sprintf("the clean run after the sink was re-created fails: %s %s", p2, r2.LastError))
 				} else {
-					jh.failedFull = false
+					jh.failedFull, jh.srcRecreated = false, false
 					jh.converged("after the sink was dropped and created again (incremental job reset) and one clean run")
 				}
 			}
